@@ -46,6 +46,8 @@ def check(ctx):
     rows = R.run_kind(ctx, 'chains')
     R.compare(ctx, rows, proj_ctx, 'C09 context markers through chains', oracle=oracle_ctx, nontrivial=lambda c, gd: gd.get('trace', '-') != '-')
     C04_more.parts_C09(ctx)
+    rows = R.run_kind(ctx, 'multi')
+    R.compare(ctx, rows, lambda d: (flag(d), ctx_of(d.get('trace')), d.get('sctx')), 'C09 context markers through multi-source operators (delivered contexts; context each source is subscribed with)', nontrivial=lambda c, gd: gd.get('trace', '-') != '-', max_report=2)
     return dict(rule='every catalogue operator x variants (the WithContext variants add a marker in the callback) x raw scripts with a marker at subscription and one per item, '
                      'and random chains; compared: marker list of every delivered notification; oracle on the implementation: never nil, subscription marker present; '
                      'non-trivial = something delivered or dropped',
